@@ -7,8 +7,10 @@
 //	  under every write segmentation (no Write at all, Write(nil), Write(empty),
 //	  single, byte-at-a-time, 3/47/48/49/64-byte steps, empty writes between
 //	  bytes, seed-random splits with empty writes);
-//	decode side: every sequence of at most 5 (thorough 6) lines over a 27-line
-//	  alphabet, LF- or CRLF-terminated (last line unterminated: one line less), every sequence of at most 4
+//	decode side: every sequence of at most 5 lines over a 27-line alphabet, LF- or
+//	  CRLF-terminated, last line terminated or not (quick: CRLF and unterminated up
+//	  to 4 lines with the full alphabet, CRLF at 5 lines over a 19-line core;
+//	  thorough: additionally every 6-line sequence over the core alphabet), every sequence of at most 4
 //	  (thorough 5) lines over 8 line kinds x 5 independently chosen terminators,
 //	  every single-byte/line edit of valid armor plus seed-random multi-edits, and
 //	  white space around the 1024-byte limits (ASCII and Unicode, with and without
@@ -22,7 +24,6 @@ import (
 	"fmt"
 	"os"
 	"runtime/debug"
-	"runtime/pprof"
 
 	"filippo.io/age/zverif/mon"
 	"filippo.io/age/zverif/refage"
@@ -48,32 +49,31 @@ func main() {
 		os.Exit(2)
 	}
 
-	if p := os.Getenv("C08_CPUPROFILE"); p != "" {
-		f, _ := os.Create(p)
-		pprof.StartCPUProfile(f)
-		defer pprof.StopCPUProfile()
-	}
 	// The reader under test allocates a 4 KiB bufio.Reader per text; with the
 	// default GC target the tiny live heap would make the collector run every
 	// thousand texts. Collect on a memory limit instead.
 	debug.SetGCPercent(-1)
-	debug.SetMemoryLimit(3 << 30)
+	debug.SetMemoryLimit(4 << 30)
 
 	c := newChecker(r)
 	r.Guard("encode-sweep", func() { runEncode(r, c) })
 
-	maxRich, maxTerm := r.Pick(5, 6), r.Pick(4, 5)
+	maxTerm := r.Pick(4, 5)
+	rich := richSpaces(r.Thorough())
 	r.Guard("line-sequences", func() {
-		runEnum(r, c, richSpaces(), maxRich, "line_sequences", 5)
-		runEnum(r, c, []space{termSpace()}, maxTerm, "terminator_sequences", 5)
+		runEnum(r, c, rich, "line_sequences", 5)
+		runEnum(r, c, []space{termSpace(maxTerm)}, "terminator_sequences", 5)
 	})
 	r.Set("line_alphabet", symbolNames(lineKinds()))
-	r.Set("line_sequence_bound", maxRich)
-	r.Set("terminator_sequence_bound", maxTerm)
+	var scope []string
+	for _, sp := range append(rich, termSpace(maxTerm)) {
+		scope = append(scope, fmt.Sprintf("%s: all sequences of %d..%d lines over %d symbols", sp.name, sp.minN, sp.maxN, len(sp.alpha)))
+	}
+	r.Set("line_sequence_spaces", scope)
 	yes := true
 	r.Exhaustive = &yes
-	r.Set("exhaustive_scope", fmt.Sprintf("the line-sequence spaces (all sequences of 0..%d lines over the 27-line alphabet, all lines LF- or all CRLF-terminated, and the same with the last line unterminated up to one line less; all sequences of 0..%d lines over 8 kinds x 5 terminators), "+
-		"all single-byte and single-line edits of the base armors, and the encode lengths listed; the random multi-edit mutants are a sample", maxRich, maxTerm))
+	r.Set("exhaustive_scope", "the line-sequence spaces listed under line_sequence_spaces (rich = the 27-line alphabet, core = its 19-line subset, terminators = 8 line kinds x 5 terminators chosen per line), "+
+		"all single-byte and single-line edits of the base armors, the white-space amounts, and the encode lengths x segmentations; the random splits and the random multi-edit mutants are samples")
 
 	r.Guard("mutation", func() {
 		var cases []textCase
@@ -85,22 +85,24 @@ func main() {
 		for _, b := range bases(r, lengths) {
 			singleEdits(b, emit)
 		}
-		runTexts(r, c, cases, "single_edits", true)
+		runTexts(r, c, cases, "single_edits")
 
 		cases = cases[:0]
 		wsCases(r, emit)
-		runTexts(r, c, cases, "whitespace_amounts", true)
+		runTexts(r, c, cases, "whitespace_amounts")
 
-		cases = cases[:0]
 		rng := r.RNG("c08-random-mutants")
-		for i := 0; i < r.Pick(300_000, 4_000_000); i++ {
-			cases = append(cases, randomMutant(rng, r.Seed))
+		const batch = 250_000
+		for left := r.Pick(300_000, 4_000_000); left > 0; left -= batch {
+			cases = cases[:0]
+			for i := 0; i < batch && i < left; i++ {
+				cases = append(cases, randomMutant(rng, r.Seed))
+			}
+			runTexts(r, c, cases, "random_mutants")
 		}
-		runTexts(r, c, cases, "random_mutants", false)
 	})
 
 	c.report()
-	pprof.StopCPUProfile()
 	r.Finish()
 }
 
